@@ -220,7 +220,31 @@ const cpuLimit = 2 * time.Second
 
 func testingTier() string { return os.Getenv("VERIF_TIER") }
 
+// poisoned: an earlier operation of this process is still running in the background after its watchdog fired, so
+// process CPU time no longer measures the operation under test (only watchdogs and work counters decide from then on).
+var poisoned bool
+
 func runOp(c Case) (opResult, error) {
+	type outcome struct {
+		res opResult
+		err error
+	}
+	ch := make(chan outcome, 1)
+	start := cpu()
+	go func() {
+		res, err := runOpInner(c)
+		ch <- outcome{res, err}
+	}()
+	select {
+	case o := <-ch:
+		return o.res, o.err
+	case <-time.After(90 * time.Second):
+		poisoned = true
+		return opResult{cpu: cpu() - start, note: "did not finish within 90 s"}, nil
+	}
+}
+
+func runOpInner(c Case) (opResult, error) {
 	s := family(c)
 	v, e := s.size()
 	bound := 4 * (v + e)
@@ -462,7 +486,7 @@ func run(c Case) (pbt.Result, error) {
 			bc.Depth, bc.Width = v-2, 1
 		}
 		base, berr := runOp(bc)
-		if berr == nil && (r.note != "" || (r.cpu > cpuLimit && r.cpu > 50*base.cpu+time.Second)) {
+		if berr == nil && (r.note != "" || (!poisoned && r.cpu > cpuLimit && r.cpu > 50*base.cpu+time.Second)) {
 			return res, pbt.Fail("cpu-blowup:"+c.Op, "%s on %s(d=%d,w=%d): %v CPU (%s) vs %v on a chain with the same node count; %.0f paths", c.Op, c.Family, c.Depth, c.Width, r.cpu, r.note, base.cpu, paths(c))
 		}
 	}
@@ -491,6 +515,11 @@ func TestScaling(t *testing.T) {
 					maxD = map[int]int{2: 23, 3: 15}[c.Width] // <= 2^24 paths: enough for CPU time to tell, bounded memory if paths are enumerated
 					if strings.HasPrefix(c.Op, "buildgraph") {
 						maxD = map[int]int{2: 27, 3: 17}[c.Width] // graph analysis keeps no per-path memory: go deeper
+					}
+					if strings.HasPrefix(c.Op, "walk-") || strings.HasPrefix(c.Op, "findcycle") {
+						// a per-path step of the walker costs some 50 ns: 2^24 paths stay under the CPU threshold, so go to
+						// depths where path enumeration cannot finish at all (the 60 s watchdog reports it)
+						maxD = map[int]int{2: 40, 3: 25}[c.Width]
 					}
 				} else if thorough {
 					maxD = map[int]int{2: 20, 3: 12}[c.Width]
